@@ -1,7 +1,7 @@
 SPECIFICATION TraceSpec
 CONSTANTS
   P = {1, 2}
-  E = {1, 2, 3, 4, 5, 6}
+  E = {1, 2, 3, 4, 5, 6, 7, 8}
   Owner <- OwnerDef
   IsReader <- IsReaderDef
   OnTopic <- OnTopicDef
